@@ -127,7 +127,7 @@ CHECKS = {
 DONE = set(CHECKS)
 # second session: translators beyond the constants, and source-level theorems
 _TRANSLATED = {
-    "C19": "the five big-integer formulas of the handshake (the model is parametrised by the back end)",
+    "C19": "the five big-integer formulas of the handshake (the model is parametrised by the back end) and, for BOTH back ends, the eleven wrapper bodies of src/bigint.rs with the library calls as modelled dependencies (tools/extract_bigint.py)",
     "C01": "the whole typestate API path (registration, from_database_values, into_proof, SrpClientChallenge::new, check_public_key, into_server, verify_server_proof), calculate_u / calculate_interleaved / calculate_session_key and the five big-integer formulas", "C02": "SrpProof::into_server, SrpClientChallenge::verify_server_proof, the proof digests (calculate_client_proof, calculate_server_proof, calculate_x) and calculate_interleaved",
     "C03": "SKey::as_equal_slice, calculate_u, calculate_interleaved, calculate_session_key, the API constructors and the five big-integer formulas (verifier, B, S, client A, client S)", "C04": "check_public_key, PublicKey::from_le_bytes, try_from_bigint and client_try_from_bigint", "C05": "SrpServer::verify_reconnection_attempt, SrpClient::calculate_reconnect_values and calculate_reconnect_proof",
     "C06": "calculate_world_server_proof and the six ProofSeed::into_{client,server}_header_crypto functions", "C07": "the Vanilla encrypt / decrypt loop bodies and the three constructors",
@@ -138,7 +138,7 @@ _TRANSLATED = {
     "C17": "the six functions of src/integrity.rs (HMAC-SHA1 objects with their update sequences, finalise)",
     "C16": "pin_to_bytes, remap_pin_grid, calculate_hash and verify_client_pin_hash", "C18": "get_number_at_coordinates, get_matrix_coordinates, generate_coordinates, MatrixCardVerifier::{new, enter_value, into_proof}, verify_matrix_card_hash, Rc4::new and the RC4 output step",
 }
-_SRC_THEOREMS = {"C01", "C15", "C12", "C17", "C02", "C03", "C04", "C05", "C06", "C07", "C08", "C09", "C10", "C11", "C13", "C14", "C16", "C18"}
+_SRC_THEOREMS = {"C19", "C01", "C15", "C12", "C17", "C02", "C03", "C04", "C05", "C06", "C07", "C08", "C09", "C10", "C11", "C13", "C14", "C16", "C18"}
 for _k, _c in CHECKS.items():
     _c["text"] += (" Every run also re-reads the source: constants and inline literals, the field order of every digest (incl. byte order and width of serialised integers),"
                    " and a scan of the files the property reaches for hidden state / unsafe / ambient inputs, each as a proof obligation against the regenerated file.")
